@@ -3,6 +3,7 @@ package verifcheck
 import (
 	"fmt"
 	"math/rand"
+	"os"
 	"path/filepath"
 	"sort"
 	"sync/atomic"
@@ -424,6 +425,13 @@ func (r *Runner) Step(op Op) string {
 	case KFlush:
 		err = e.AOF.Flush()
 	case KCompress:
+		if op.Stale {
+			// what a crash inside an earlier compression (or its background clean-up that has not run yet) leaves behind
+			stale := filepath.Join(r.Dir, "arenas", op.Idx+".old_compress")
+			if os.MkdirAll(stale, 0o755) == nil {
+				_ = os.WriteFile(filepath.Join(stale, "arena_0000.bin"), []byte("stale"), 0o644)
+			}
+		}
 		err = e.VCompress(op.Idx, distance.PrecisionType(op.Prec))
 	case KMaint:
 		err = e.VTriggerMaintenance(op.Idx, op.Task)
